@@ -232,6 +232,12 @@ pub fn run_guarded<S: SubCheckT>(case: &S::Case, st: &mut Stats) -> CaseResult {
             let msg = LAST_PANIC
                 .with(|p| p.borrow_mut().take())
                 .unwrap_or_else(|| "<unknown panic>".into());
+            if msg.contains("HARNESS-ABORT") {
+                return Err(Failure {
+                    signature: "harness/abort".into(),
+                    detail: msg,
+                });
+            }
             Err(Failure {
                 signature: panic_signature(&msg),
                 detail: format!("library or harness panicked: {}", msg),
